@@ -12,6 +12,7 @@
 # include "upa/url_percent_encode.h"
 # include "upa/url_search_params.h"
 #endif
+#include "buf_ops.h"
 #include <cstdio>
 #include <cstdlib>
 #include <cstring>
@@ -327,6 +328,14 @@ static std::string exec(const std::vector<std::string>& t) {
         std::string r;
         WITH(t[2], parse_units(t[3]), r = upa::percent_encode(a, *set));
         return hx(r);
+    }
+    if (op == "buf" && t.size() == 3) return upa_verif_buf::op_buf(t[1], t[2], static_cast<std::string(*)(const char*, std::size_t)>(hx));
+    if (op == "sv" && t.size() == 4) {
+        // the view this configuration uses: bundled str_view (C++11/14) or std::string_view (C++17/20)
+        std::string a, b;
+        { const std::vector<unsigned long> ua = parse_units(t[1]); for (std::size_t i = 0; i < ua.size(); ++i) a.push_back(static_cast<char>(ua[i])); }
+        { const std::vector<unsigned long> ub = parse_units(t[2]); for (std::size_t i = 0; i < ub.size(); ++i) b.push_back(static_cast<char>(ub[i])); }
+        return upa_verif_buf::op_sv<upa::string_view>(a, b, t[3], static_cast<std::string(*)(const char*, std::size_t)>(hx));
     }
     if (op == "pdec" && t.size() == 3) { std::string r; WITH(t[1], parse_units(t[2]), r = upa::percent_decode(a)); return hx(r); }
     if (op == "host" && t.size() == 3) {
